@@ -59,6 +59,17 @@ fn weights(g: &mut Sm64, len: usize) -> Vec<f64> {
             w[i] = 1.0;
         }
     }
+    // sometimes one weight so small that its probability is a subnormal number of the float type
+    // (f32: ratio below 1e-38; f64: below 1e-308; positive all the same)
+    if len > 1 && g.chance(0.1) && w.iter().filter(|x| **x > 0.0).count() >= 2 {
+        let imax = (0..len).max_by(|a, b| w[*a].partial_cmp(&w[*b]).unwrap()).unwrap();
+        let i = (imax + 1 + g.below(len - 1)) % len;
+        let mx = w[imax];
+        let ratio = if g.bool() { g.log_uniform(1e-44, 1e-38) } else { g.log_uniform(1e-322, 1e-306) };
+        let mut v: Vec<f64> = w.iter().map(|x| x / mx).collect();
+        v[i] = ratio;
+        return v;
+    }
     // sometimes *almost* normalised: total within 1e-14..1e-2 of one (but not one)
     if g.chance(0.2) {
         let tot: f64 = w.iter().sum();
@@ -104,7 +115,9 @@ where
     }
     for i in 0..len {
         let expect = w[i].to_f64().unwrap() / wsum;
-        if (probs[i] - expect).abs() > 4.0 * (len as f64) * F::eps() * expect.max(1e-300) + 1e-300 {
+        // (a subnormal quotient carries an absolute error of up to one subnormal spacing)
+        let quantum = F::min_positive_value().to_f64().unwrap() * F::eps();
+        if (probs[i] - expect).abs() > 4.0 * (len as f64) * F::eps() * expect.max(1e-300) + quantum {
             rep.violation(&format!("{sig} probs-differ-from-weights/sum"), mon, case, json!({"cfg": wj(), "i": i, "prob": probs[i], "expected": expect}));
             return;
         }
@@ -128,6 +141,15 @@ where
         return;
     }
     rep.held();
+    // (for the state-leak phase at the end)
+    let mut w2 = w.clone();
+    if len >= 4 {
+        w2[1..len - 1].reverse();
+    }
+    let probs2: Vec<F> = {
+        let c = Categorical::<F>::with_rng(w2.clone(), SmallRng::seed_from_u64(3));
+        c.probs.clone()
+    };
     // injected variates
     let steps = F::STEPS;
     let mut ks: Vec<u64> = vec![0, 1, steps - 1, steps - 2, steps / 2];
@@ -198,6 +220,61 @@ where
         }
     }
     rep.held();
+    // state must not leak from one distribution to the next: (a) a second distribution of the same
+    // length with the same first and last weight but the interior reversed, built on this thread
+    // right after the first one was used; (b) the public `probs` of an existing object edited in place
+    if len >= 4 {
+        // (w2 and probs2 were allocated before the loop above, so that the objects built below get
+        // their buffers where that loop's objects had theirs)
+        if !bits_eq(&w2, &w) {
+            for edit_in_place in [false, true] {
+                // inverse cdf by definition, in F arithmetic
+                let expect = |u: F| -> (usize, bool) {
+                    let mut cum = F::zero();
+                    let mut near = false;
+                    for (i, p) in probs2.iter().enumerate() {
+                        cum += *p;
+                        if (u.to_f64().unwrap() - cum.to_f64().unwrap()).abs() <= 8.0 * F::eps() {
+                            near = true;
+                        }
+                        if u < cum {
+                            return (i, near);
+                        }
+                    }
+                    (probs2.iter().rposition(|p| *p > F::zero()).unwrap_or(len - 1), true)
+                };
+                for i in 0..96u64 {
+                    let kk = (i * (steps / 96) + g.next_u64() % (steps / 96)).min(steps - 1);
+                    let rng = F::craft(kk, g.next_u64());
+                    let u: F = F::peek(&rng);
+                    let mut c = if edit_in_place {
+                        let mut c = Categorical::<F>::with_rng(w.clone(), rng);
+                        c.probs[1..len - 1].reverse();
+                        c
+                    } else {
+                        Categorical::<F>::with_rng(w2.clone(), rng)
+                    };
+                    rep.eval();
+                    let got = match guard(|| c.sample()) {
+                        Ok(x) => x,
+                        Err(m) => {
+                            rep.violation(&format!("{sig} panic in sample"), mon, case, json!({"cfg": wj(), "panic": m}));
+                            return;
+                        }
+                    };
+                    let (want, near) = expect(u);
+                    if got >= len || (!near && got != want) || !(probs2[got.min(len - 1)] > F::zero()) {
+                        let how = if edit_in_place { "after the public probs were edited in place" } else { "for a second distribution built right after another of the same length and end weights" };
+                        rep.violation(&format!("{sig} sample-is-not-the-inverse-cdf-of-the-current-probs {how}"), mon, case,
+                            json!({"cfg": wj(), "u": u.to_f64().unwrap(), "sample": got, "expected": want, "current_probs": probs2.iter().map(|p| p.to_f64().unwrap()).collect::<Vec<_>>()}));
+                        return;
+                    }
+                }
+                rep.held();
+                rep.count(if edit_in_place { "distributions_sampled_after_in_place_edit_of_probs" } else { "sibling_distributions_sampled_right_after" });
+            }
+        }
+    }
     rep.sample(json!({"F": F::NAME, "len": len, "probs_head": fjv(&probs[..len.min(6)]), "injected_variates": ks.len(),
         "zero_prob_categories": probs.iter().filter(|p| **p == 0.0).count()}));
     rep.count_n("zero_probability_categories_present", probs.iter().filter(|p| **p == 0.0).count() as u64);
